@@ -135,6 +135,7 @@ def run_program(acc, case: dict, prog: dict, inputs: List[tuple], configs: List[
                     for prefix, res in explore(run_one, tie_budget, max_execs):
                         n += 1
                         acc.evaluations += 1
+                        acc.stall(res)
                         sc.add(res)
                         compare(acc, dict(case, config=config, is_async=is_async, args=list(args)), prog, args, res, refres, src,
                                 tuple(c for _, _, c in res.choices), check_calls)
@@ -143,6 +144,7 @@ def run_program(acc, case: dict, prog: dict, inputs: List[tuple], configs: List[
                 else:
                     res = H.run_controlled(op, is_async=is_async)
                     acc.evaluations += 1
+                    acc.stall(res)
                     sc.add(res)
                     compare(acc, dict(case, config=config, is_async=is_async, args=list(args)), prog, args, res, refres, src, (), check_calls)
                 s, t = sc.counts()
